@@ -272,6 +272,9 @@ def cases(tier, seed):
     n = 64 if tier == "quick" else 1600
     for i in range(n):
         yield {"label": "models", "seed": seed * 1000003 + i, "n": 300, "epoch0": i % 16 == 15}
+    for i in range(24 if tier == "quick" else 400):
+        yield {"label": "concurrent-first-use", "kind": "concurrent", "seed": seed * 7919 + i, "threads": [2, 4, 8][i % 3], "p": [0.0, 0.1, 0.3, 0.6][i % 4],
+               "n": [6, 40, 120][(i // 3) % 3]}
 
 
 def run_case(case):
@@ -281,6 +284,8 @@ def run_case(case):
         return run_insitu(case, PROP)
     from aws_durable_execution_sdk_python import execution as E
 
+    if case.get("kind") == "concurrent":
+        return run_concurrent(case)
     rng = random.Random(case["seed"])
     viol: list = []
     counts = {"update": 0, "operation": 0, "input": 0, "output": 0, "factory": 0}
@@ -314,16 +319,61 @@ def run_case(case):
             "sample": {"label": "models", "examples": samples}}
 
 
+def run_concurrent(case):
+    """T threads of a fresh interpreter decode and re-encode the same wire dictionaries at once (first use); every thread's
+    result must equal the sequential one."""
+    from aws_durable_execution_sdk_python import execution as E
+    from checks.concurrent_codec import run_trial
+
+    rng = random.Random(case["seed"])
+    items = []
+    for i in range(case["n"]):
+        c = i % 4
+        if c == 0:
+            u = gen_update(rng)
+            items.append(("update", "dict", u.to_dict()))
+        elif c == 1:
+            o = gen_operation(rng)
+            items.append(("operation", rng.choice(["dict", "json"]), None))
+            items[-1] = (items[-1][0], items[-1][1], o.to_dict() if items[-1][1] == "dict" else o.to_json_dict())
+        elif c == 2:
+            ops = [gen_operation(rng) for _ in range(rng.randrange(1, 4))]
+            inp = E.DurableExecutionInvocationInput(durable_execution_arn="arn:x", checkpoint_token="tok",
+                                                    initial_execution_state=E.InitialExecutionState(operations=ops, next_marker=""))
+            path = rng.choice(["dict", "json"])
+            items.append(("input", path, inp.to_dict() if path == "dict" else inp.to_json_dict()))
+        else:
+            out = E.DurableExecutionInvocationOutput(status=rng.choice(list(E.InvocationStatus)), result=rng.choice([None, "{}", "r"]),
+                                                     error=rng.choice([None, gen_error(rng)]))
+            items.append(("output", "dict", out.to_dict()))
+    verdict, det = run_trial("c20", items, case["seed"], threads=case["threads"], p=case["p"])
+    viol = []
+    if verdict == "differs":
+        t, i, a, b = det["diffs"][0]
+        v = V(PROP, "C20/concurrent-use-differs/%s" % items[i][0],
+              "thread %d of %d decoding %s #%d concurrently (fresh interpreter) gave %.300r, sequentially %.300r; %d differing conversions"
+              % (t, case["threads"], items[i][0], i, b, a, det["n_diffs"]))
+        v["case"] = case
+        viol.append(v)
+    return {"execs": 1, "classes": {"concurrent|T%d|p%s|n%d|%s" % (case["threads"], case["p"], case["n"], verdict)}, "violations": viol,
+            "obs": {"concurrent_trials": 1 if verdict != "inconclusive" else 0, "concurrent_conversions": det.get("conversions", 0),
+                    "concurrent_yield_hits": det.get("hits", 0), "concurrent_inconclusive": 1 if verdict == "inconclusive" else 0},
+            "sample": {"label": "concurrent-first-use", "threads": case["threads"], "p": case["p"], "verdict": verdict, "detail": str(det)[:300]}}
+
+
 RULE = ("seeded generator of well-typed instances of OperationUpdate, Operation, DurableExecutionInvocationInput and "
         "DurableExecutionInvocationOutput over every operation type/status/sub-type/action, absent/empty/non-empty optionals, nested error "
         "objects (at least one field set), timestamps 2000-2100 with sub-millisecond parts (epoch-0 in a separate slice). Oracle: "
         "N(from_dict(to_dict(x))) == N(x) and N(from_json_dict(to_json_dict(x))) == N(x) where N applies exactly the permitted losses "
         "(ms truncation on the JSON path; '' == absent for optional strings; an entirely empty details object == absent), to_json_dict is "
         "JSON-serializable, and every OperationUpdate.create_* factory's wire dict contains every identifier field and option passed. "
-        "A class = (model, type, status/action, sub-type).")
+        "A class = (model, type, status/action, sub-type). Concurrent slice: in a fresh interpreter 2-8 threads decode and re-encode the same "
+        "wire dictionaries at once (first use, LINE-level yield injection in lambda_service.py/execution.py); every thread's result must equal "
+        "the sequential one.")
 
 if __name__ == "__main__":
     sys.exit(harness.main_for("checks.c20", PROP, "exploration", RULE,
                               ["the normal form N is the only equality relaxation; error objects are generated with at least one field set",
                                "an entirely empty WaitDetails/ChainedInvokeDetails object is treated as equal to an absent one (no protocol field is carried)"],
-                              {"operations_checked": 5000, "updates_checked": 5000, "factory_calls_checked": 500, "insitu_contract_evaluations_update_to_dict": 300}))
+                              {"operations_checked": 5000, "updates_checked": 5000, "factory_calls_checked": 500, "insitu_contract_evaluations_update_to_dict": 300,
+                               "concurrent_trials": 10}))
